@@ -61,8 +61,9 @@ def classify(prop, f, tr, trace_text):
         m = re.search(r'asset kind (\d+) id (\d+)', f['what'])
         key = (m.group(1), m.group(2)) if m else None
         pubs = [p for p, w in ops if w[0] == 'addasset' and (w[1], w[2]) == key]
-        if len(set(pubs)) > 1:
-            # S12: request() guard on the mesh cache + conflicting publishers
+        if len(set(pubs)) > 1 and key[0] == '1':
+            # S12: request() returns when this peer's MESH cache holds the id: a mesh this peer serves is
+            # never fetched again when another peer re-publishes it
             return 'S12-asset-republished-by-another-peer'
         if len(pubs) > 1:
             # S7: one handle token for several asset events: the receiver echoes the asset as its own
